@@ -348,7 +348,86 @@ def gym_step(gmod, genv, d0, d1, action):
         genv.data, genv.model = real_data, real_model
 
 
-def unit_mujoco(name):
+def _variant_options(name):
+    """a second constructor configuration within the property's quantifier ('the documented observation/termination constructor options'): every boolean option flipped and every
+    healthy / contact range moved off its default (same keyword names in lerax and Gymnasium v5).  Scalar reward WEIGHTS are left at their defaults: they are outside the stated
+    quantifier, and Gymnasium v5's HumanoidStandup ignores its own uph_cost_weight (lerax follows the documented formula) - an out-of-scope difference that must not raise an alarm."""
+    import inspect
+    from lerax.env import mujoco as LM
+    gmodname, gcls = MUJOCO[name]
+    gmod = importlib.import_module(f"gymnasium.envs.mujoco.{gmodname}")
+    L = inspect.signature(getattr(LM, name).__init__).parameters
+    G = inspect.signature(getattr(gmod, gcls).__init__).parameters
+    opts = {}
+    for k_, p in L.items():
+        if k_ not in G or k_ in ("self", "xml_file", "frame_skip", "reset_noise_scale", "default_camera_config", "key"):
+            continue
+        d, dg = p.default, G[k_].default
+        if isinstance(d, bool) and isinstance(dg, bool):
+            opts[k_] = not d
+        elif isinstance(d, tuple) and isinstance(dg, tuple) and len(d) == 2 and all(isinstance(x, (int, float)) for x in d) and all(np.isfinite(d)):
+            opts[k_] = (float(d[0]) + 0.0625, float(d[1]) + 0.1875)
+    return opts
+
+
+def _memo_replay(f):
+    memo = {}
+
+    def g(model):
+        if "r" not in memo:
+            memo["r"] = f(model)
+        return memo["r"]
+    return g
+
+
+def mujoco_native_replay(name, opts):
+    """R1: the real Gymnasium v5 environment (real MuJoCo physics) stepped with random in-range actions, also past unhealthy states; lerax's observation / reward / terminal /
+    reward components are evaluated on mjx.Data copies of EXACTLY Gymnasium's pre- and post-step MjData (mjx.put_data), so any difference is semantic, not engine numerics."""
+    def replay(model):
+        import copy
+        import warnings
+        from mujoco import mjx
+        from lerax.env import mujoco as LM
+        from lerax.env.mujoco.base_mujoco import MujocoEnvState
+        gmodname, gcls = MUJOCO[name]
+        gmod = importlib.import_module(f"gymnasium.envs.mujoco.{gmodname}")
+        genv, lenv = getattr(gmod, gcls)(**opts), getattr(LM, name)(**opts)
+        mk = lambda x: MujocoEnvState(sim_state=x, t=jnp.asarray(0.0))
+        rng = np.random.RandomState(0)
+        lo, hi = np.asarray(genv.action_space.low, np.float64), np.asarray(genv.action_space.high, np.float64)
+        k = jax.random.key(0)
+        close = lambda a, b: np.allclose(np.asarray(a, np.float64), np.asarray(b, np.float64), rtol=2e-3, atol=2e-3)
+        with warnings.catch_warnings():
+            warnings.simplefilter("ignore")
+            for ep in range(3):
+                genv.reset(seed=ep)
+                for t in range(40):
+                    before = copy.copy(genv.data)
+                    a = rng.uniform(lo, hi)
+                    gobs, grew, gterm, _, ginfo = genv.step(a.astype(np.float32))
+                    d0, d1 = mjx.put_data(genv.model, before), mjx.put_data(genv.model, genv.data)
+                    aj = jnp.asarray(a, f32)
+                    lobs, lrew, lterm = lenv.observation(mk(d1), key=k), lenv.reward(mk(d0), aj, mk(d1), key=k), bool(lenv.terminal(mk(d1), key=k))
+                    linfo = lenv.transition_info(mk(d0), aj, mk(d1))
+                    bad = {}
+                    if np.shape(lobs) != np.shape(gobs) or not close(lobs, gobs):
+                        bad["observation"] = dict(lerax=np.asarray(lobs).tolist(), gymnasium=np.asarray(gobs).tolist())
+                    if not close(lrew, grew):
+                        bad["reward"] = dict(lerax=float(lrew), gymnasium=float(grew))
+                    if lterm != bool(gterm):
+                        bad["terminated"] = dict(lerax=lterm, gymnasium=bool(gterm))
+                    for kk_, gv in ginfo.items():
+                        if kk_.startswith("reward_") and kk_ in linfo and not close(linfo[kk_], gv):
+                            bad[kk_] = dict(lerax=float(linfo[kk_]), gymnasium=float(gv))
+                    if bad:
+                        return dict(reproduced=True, route="R1 (real Gymnasium v5 step on real MuJoCo; lerax evaluated on mjx.put_data copies of the same MjData)",
+                                    inputs=dict(env=name, constructor=opts, reset_seed=ep, step=t, action=a.tolist(), qpos_before=np.asarray(before.qpos).tolist(), qvel_before=np.asarray(before.qvel).tolist()),
+                                    observed=bad)
+        return dict(reproduced=False, note="3 episodes x 40 random steps (continued past unhealthy states): observation, reward, components and termination agree with Gymnasium v5")
+    return replay
+
+
+def unit_mujoco(name, variant=False):
     def unit(S):
         from mujoco import mjx
         from lerax.env import mujoco as LM
@@ -357,8 +436,12 @@ def unit_mujoco(name):
         gmod = importlib.import_module(f"gymnasium.envs.mujoco.{gmodname}")
         fnp = f"lerax.env.mujoco:{name}"
         S.under_contract(fnp + ".observation", fnp + ".reward", fnp + ".terminal", fnp + ".transition_info", fnp + ".initial")
-        genv = getattr(gmod, gcls)()
-        lenv = getattr(LM, name)()
+        opts = _variant_options(name) if variant else {}
+        if variant:
+            S.note(f"constructor options (both sides): {opts}")
+        genv = getattr(gmod, gcls)(**opts)
+        lenv = getattr(LM, name)(**opts)
+        name_ = name
         ctx = Ctx()
         dstruct = jax.eval_shape(lambda: mjx.make_data(lenv.model))
         d0, d1 = sym(ctx, "d0", dstruct), sym(ctx, "d1", dstruct)
@@ -409,8 +492,12 @@ def unit_mujoco(name):
                     reward="reward(state, action, successor) equals Gymnasium v5's reward for every pair of physical states and every in-range action",
                     terminated="terminal(successor) equals Gymnasium v5's terminated flag",
                     components="the reward components reported in transition_info equal Gymnasium v5's info entries")
+        rp = _memo_replay(mujoco_native_replay(name, opts))
+        nat = rp(None)
+        S.bounded_check(f"{name}/native-rollouts-agree-with-gymnasium", not nat.get("reproduced"), bound="3 episodes x 40 random in-range steps of the real Gymnasium v5 environment (real MuJoCo), continued past unhealthy states; tolerance 2e-3",
+                        function=fnp, what="observation, reward, reward components and termination of lerax evaluated on copies of Gymnasium's own MjData agree with Gymnasium's outputs", detail=nat.get("observed"), replay=rp)
         for gname, gl in goals.items():
-            S.prove(f"{name}/{gname}", ctx, sand(*gl), hyps=fin + in_range, function=fnp + "." + {"observation": "observation", "reward": "reward", "terminated": "terminal"}.get(gname, "transition_info"),
+            S.prove(f"{name}/{gname}", ctx, sand(*gl), hyps=fin + in_range, replay=rp, function=fnp + "." + {"observation": "observation", "reward": "reward", "terminated": "terminal"}.get(gname, "transition_info"),
                     what=what.get(gname, f"the reward component {gname.split(':')[-1]} reported in transition_info equals Gymnasium v5's info entry"), nl_budget_ms=-8000)
         # reset: derived kinematics consistent with the sampled configuration (Gymnasium's set_state runs mj_forward)
         ctx2 = Ctx()
@@ -445,7 +532,7 @@ def _reset_replay(name):
     return replay
 
 
-UNITS = UNITS + [(f"mujoco:{n}", unit_mujoco(n)) for n in MUJOCO]
+UNITS = UNITS + [(f"mujoco:{n}", unit_mujoco(n)) for n in MUJOCO] + [(f"mujoco-options:{n}", unit_mujoco(n, True)) for n in MUJOCO if n != "InvertedPendulum"]
 
 
 def unit_mujoco_transition(S):
